@@ -50,6 +50,7 @@ def rot_case(draw, ndim=(2, 4)):
     return {"g": g, "subs": subs, "k": k, "vdims": vd, "kind": kind,
             "perm": list(draw(st.permutations(range(nd)))), "drop": draw(st.integers(0, 3)),
             "dtype": draw(st.sampled_from(["float", "float", "int"])), "seed": draw(st.integers(0, 2**31)),
+            "huge_int": draw(st.booleans()),
             "mask": draw(gen.mask_spec(nd)), "ref": refv, "ref_type": draw(st.sampled_from(["tuple", "list", "array"])),
             "inplace_picks": [draw(st.integers(0, 10**6)) for _ in range(4)], "unit": draw(st.sampled_from(gen.FIELD_UNITS))}
 
@@ -90,6 +91,9 @@ def build(case, with_mapping=True):
     arr = gen.make_array(case["seed"], (*n, k), "int", "float")
     if case["dtype"] == "int":
         arr = arr.astype(np.int64)
+        if case.get("huge_int"):
+            # components beyond 2**53: exact in int64, not in float64
+            arr = arr * (2**57 + 12345) + np.arange(arr.size, dtype=np.int64).reshape(arr.shape) * 7 + 1
     kw = {}
     if case["vdims"]:
         kw["vdims"] = list(case["vdims"])
@@ -165,8 +169,13 @@ def reg_close(r1, r2, atol):
 
 
 def mesh_close(m1, m2, atol):
-    return reg_close(m1.region, m2.region, atol) and np.array_equal(m1.n, m2.n) and list(m1.subregions) == list(m2.subregions) \
-        and all(reg_close(m1.subregions[s], m2.subregions[s], atol) for s in m1.subregions)
+    # region, cell counts, subregions - and what the meshes *say* their cell size is (edges / n, whatever the mesh was
+    # created from and whatever happened to it since)
+    cell_ok = np.allclose(np.asarray(m1.cell, float), np.asarray(m2.cell, float), rtol=1e-9, atol=0) and \
+        np.allclose(np.asarray(m1.cell, float) * np.asarray(m1.n), np.asarray(m1.region.edges, float), rtol=1e-9, atol=0)
+    return cell_ok and reg_close(m1.region, m2.region, atol) and np.array_equal(m1.n, m2.n) and \
+        list(m1.subregions) == list(m2.subregions) and \
+        all(reg_close(m1.subregions[s], m2.subregions[s], atol) for s in m1.subregions)
 
 
 def snapshot(f):
